@@ -475,6 +475,8 @@ def run_shard(shard, rec):
             shape = gen_shape(r, shard["i"] * 1000 + j)
             sers = ["serpent", fixture.SERIALIZERS[1 + (shard["i"] + j) % 3]] if rec.tier == "quick" else fixture.SERIALIZERS
             for k, sername in enumerate(sers):
+                if rec.should_stop(40):
+                    break
                 run_shape(fx, shape, sername, rec, r, light=False)
         for kind, text in fixture.take_faults():
             if kind == "thread-exception":
